@@ -170,7 +170,7 @@ def run_ino_property(run, quick_n=96, thorough_n=2400, steps=45):
         okx, logx = True, ""
         if pid == "C19":      # C19 also uses a fact generated from the source (register before send)
             okx, logx = run_xlate("cfg,consts")
-            files = ["obl/OblCfg.v"] + files
+            files = ["obl/OblC19.v"] + files
         if ok_static and okx:
             ok, log = coq_make([f + "o" for f in files if f.startswith("props/")])
         elif not okx:
